@@ -10,6 +10,7 @@ import (
 	"os/exec"
 	"path/filepath"
 	"sort"
+	"strconv"
 	"strings"
 	"unicode/utf8"
 
@@ -322,6 +323,59 @@ func runC08(c *Case) {
 		}
 		checkRow("update", tv, "k = ?", id, want, cls+":update")
 		expV[want] = true
+	}
+	// an UPDATE to a value that compares equal to the stored one but is another value: the zero of
+	// the other sign, the same number in the other numeric class, the same bytes as TEXT / BLOB
+	{
+		negZero := math.Copysign(0, -1)
+		pairs := [][2]interface{}{
+			{float64(0), negZero}, {negZero, float64(0)},
+			{int64(1), float64(1)}, {float64(2), int64(2)}, {int64(0), negZero}, {negZero, int64(0)},
+			{"a", []byte("a")}, {[]byte("b"), "b"}, {int64(7), "7"}, {"8", int64(8)}, {float64(1 << 53), int64(1 << 53)},
+		}
+		for j, pr := range pairs {
+			id := int64(8000 + j)
+			if err := conn.Exec("insert into "+tv+"(k,a,b) values (?,?,?)", id, pr[0], pr[0]); err != nil {
+				continue
+			}
+			err := conn.Exec("update "+tv+" set a = ? where k = ?", pr[1], id)
+			c.Count("writes", 1)
+			want := fmt.Sprintf("i:%d|%s|%s", id, renderCell(pr[0]), renderCell(pr[0]))
+			if err == nil {
+				want = fmt.Sprintf("i:%d|%s|%s", id, renderCell(pr[1]), renderCell(pr[0]))
+				c.Count("updates_to_an_equal_comparing_value", 1)
+			}
+			checkRow("update", tv, "k = ?", id, want, c08Class(pr[1])+":update-to-equal-comparing-value")
+			expV[want] = true
+		}
+	}
+	// a stored numeric key looked up by the equal value of the other numeric class (or the zero of
+	// the other sign) comes back as it was stored
+	for want := range expK {
+		cell := strings.SplitN(want, "|", 2)[0]
+		var twin interface{}
+		switch {
+		case strings.HasPrefix(cell, "i:"):
+			n, _ := strconv.ParseInt(cell[2:], 10, 64)
+			if f := float64(n); n > -(1<<53) && n < 1<<53 {
+				twin = f
+			}
+		case strings.HasPrefix(cell, "r:"):
+			f, _ := strconv.ParseFloat(cell[2:], 64)
+			if f == 0 {
+				twin = -f
+				if math.Signbit(f) {
+					twin = float64(0)
+				}
+			} else if f == math.Trunc(f) && math.Abs(f) < 1<<53 {
+				twin = int64(f)
+			}
+		}
+		if twin == nil {
+			continue
+		}
+		c.Count("keys_read_by_their_twin", 1)
+		checkRow("twin-lookup", tk, "k = ?", twin, want, "key-by-twin")
 	}
 	// unmentioned columns read NULL also when an older value of that column exists
 	// under a delete marker: one transaction (one write time), and a later one
